@@ -1,13 +1,26 @@
 import PsyVerif.Model.Proto
 import PsyVerif.Model.Topo
+import PsyVerif.Model.ModClosure
 open Proto
 
-/-- input: `((m d1 d2 ...) (m' ...) ...)`; output: the sorted module list. -/
+def graphOf (s : Sexp) : C27.Graph := s.items.filterMap fun e =>
+  match e.natList with
+  | m :: ds => some (m, ds)
+  | [] => none
+
+def showGraph (g : C27.Graph) : String :=
+  showList (fun (e : Nat × List Nat) => showList toString (e.1 :: e.2)) g
+
+/-- input: `((m d1 d2 ...) (m' ...) ...)`; output: the sorted module list.
+`(closure FILES IGNORES INIT ORACLE)`: output `(MAP SORTED)` where MAP is the result of
+`get_all_dependencies_recursively` in dict order under the given pop oracle and SORTED
+the result of sorting it. -/
 def handle (s : Sexp) : String :=
-  let g : C27.Graph := s.items.filterMap fun e =>
-    match e.natList with
-    | m :: ds => some (m, ds)
-    | [] => none
-  showList toString (C27.sortModules g)
+  match s with
+  | .list [.atom "closure", files, ign, ini, orc] =>
+    let w : C27.World := { files := graphOf files, ignores := ign.natList }
+    let g := C27.closure w ini.natList orc.natList
+    "(" ++ showGraph g ++ " " ++ showList toString (C27.sortModules g) ++ ")"
+  | _ => showList toString (C27.sortModules (graphOf s))
 
 def main : IO Unit := run handle
